@@ -89,10 +89,11 @@ func (r *zstdByteStreamChunkReader) Read() ([]byte, error) {
 	buf := make([]byte, r.readChunkSize)
 	n, err := r.decoder.Read(buf)
 	if n > 0 {
-		if err != nil && err != io.EOF {
-			err = nil
-		}
-		return buf[:n], err
+		// ChunkReaders must return either data or an error.
+		// Consumers discard data that is returned together
+		// with io.EOF. The decoder returns the error once more
+		// during the next call.
+		return buf[:n], nil
 	}
 	return nil, err
 }
